@@ -118,7 +118,11 @@ def monitor(script):
         _, o = _kv("x " + oraw)
         first = oraw.split(" ", 1)[0] if oraw else ""
         if "panic" in oraw.split() or first == "panic":
-            hit("C15:panic-in-process", f"`{op[:80]}` made the process panic: {line[-160:]}")
+            sig = "C13:routing-call-panicked" if verb in ROUTING else "C15:panic-in-process"
+            hit(sig, f"`{op[:80]}` panicked: {line[-160:]}")
+            return hits
+        if first == "err=hung":
+            hit("C13:routing-call-hung", f"`{op[:70]}` did not return (the manager spins or is blocked with its mutex held)")
             return hits
         if first == "bad-op" or "gt" not in o:
             continue
